@@ -3,7 +3,7 @@
      edits are; hence every statement and every history does;
    - for binary collations / integers that is difference under the collation;
    - exactness of a plain multi-row INSERT when the row-key strings are injective on the keys present. *)
-From Coq Require Import List NArith ZArith Bool Lia Permutation.
+From Coq Require Import List NArith ZArith Bool Lia Permutation DecimalN.
 Import ListNotations.
 From GMS Require Import Store.C14Editor.
 
@@ -518,6 +518,100 @@ Proof.
   - rewrite H. reflexivity.
 Qed.
 
+(* ---------- the row key string is injective (length-prefix decoding) ---------- *)
+Definition is_digit (c : N) : Prop := (48 <= c <= 57)%N.
+
+Lemma bytes_of_uint_digits : forall u, Forall is_digit (bytes_of_uint u).
+Proof. induction u; cbn; constructor; try assumption; unfold is_digit; lia. Qed.
+
+Lemma bytes_of_uint_inj : forall u v, bytes_of_uint u = bytes_of_uint v -> u = v.
+Proof. induction u; destruct v; cbn; intros H; try discriminate; try reflexivity; injection H as H; f_equal; apply IHu; exact H. Qed.
+
+Lemma render_N_inj : forall a b, render_N a = render_N b -> a = b.
+Proof. intros a b H. apply DecimalN.Unsigned.to_uint_inj. apply bytes_of_uint_inj. exact H. Qed.
+
+Lemma render_N_digits : forall n, Forall is_digit (render_N n).
+Proof. intros n. apply bytes_of_uint_digits. Qed.
+
+Lemma render_Z_inj : forall a b, render_Z a = render_Z b -> a = b.
+Proof.
+  assert (Hm : forall p x, render_N (Npos p) = 45%N :: x -> False).
+  { intros p x H. pose proof (render_N_digits (Npos p)) as D. rewrite H in D. inversion D as [|? ? Hd _]. unfold is_digit in Hd. lia. }
+  intros [|p|p] [|q|q]; cbn; intros H; try reflexivity.
+  - apply render_N_inj in H. discriminate.
+  - exfalso. exact (Hm _ _ H).
+  - apply render_N_inj in H. discriminate.
+  - apply render_N_inj in H. congruence.
+  - exfalso. exact (Hm _ _ H).
+  - exfalso. symmetry in H. exact (Hm _ _ H).
+  - exfalso. symmetry in H. exact (Hm _ _ H).
+  - injection H as H. apply render_N_inj in H. congruence.
+Qed.
+
+(* %v is injective on the values of one column kind: integers (decimal) and strings (the bytes themselves) *)
+Inductive kind := KInt | KStr.
+Definition has_kind (k : kind) (v : val) : Prop :=
+  match k, v with KInt, VInt _ => True | KStr, VStr _ => True | _, _ => False end.
+
+Lemma render_inj_kind : forall k a b, has_kind k a -> has_kind k b -> render a = render b -> a = b.
+Proof.
+  intros [|] [|x|x] [|y|y]; cbn; intros Ha Hb H; try contradiction.
+  - apply render_Z_inj in H. congruence.
+  - congruence.
+Qed.
+
+Lemma split_colon : forall l1 l2 r1 r2, Forall is_digit l1 -> Forall is_digit l2 ->
+  l1 ++ 58%N :: r1 = l2 ++ 58%N :: r2 -> l1 = l2 /\ r1 = r2.
+Proof.
+  induction l1 as [|x l1 IH]; intros [|y l2] r1 r2 H1 H2 H; cbn in H.
+  - injection H as H. split; [reflexivity|exact H].
+  - injection H as Hx _. inversion H2 as [|? ? Hd _]. unfold is_digit in Hd. lia.
+  - injection H as Hx _. inversion H1 as [|? ? Hd _]. unfold is_digit in Hd. lia.
+  - injection H as Hx H. inversion H1; inversion H2; subst. destruct (IH l2 r1 r2) as [E1 E2]; try assumption. split; congruence.
+Qed.
+
+Lemma app_eq_len : forall (A : Type) (p1 p2 t1 t2 : list A), length p1 = length p2 -> p1 ++ t1 = p2 ++ t2 -> p1 = p2 /\ t1 = t2.
+Proof.
+  induction p1 as [|x p1 IH]; intros [|y p2] t1 t2 Hl H; cbn in *; try discriminate.
+  - split; [reflexivity|exact H].
+  - injection H as -> H. injection Hl as Hl. destruct (IH p2 t1 t2 Hl H) as [-> ->]. split; reflexivity.
+Qed.
+
+Lemma key_part_app_inj : forall a b t1 t2, key_part a ++ t1 = key_part b ++ t2 -> render a = render b /\ t1 = t2.
+Proof.
+  intros a b t1 t2 H. unfold key_part in H. rewrite <- !app_assoc in H. cbn [app] in H.
+  destruct (split_colon _ _ _ _ (render_N_digits _) (render_N_digits _) H) as [Hn Hr].
+  apply render_N_inj in Hn. apply Nat2N.inj in Hn. exact (app_eq_len _ _ _ _ _ Hn Hr).
+Qed.
+
+Lemma key_parts_inj : forall ks k1 k2, Forall2 has_kind ks k1 -> Forall2 has_kind ks k2 ->
+  concat (map key_part k1) = concat (map key_part k2) -> k1 = k2.
+Proof.
+  induction ks as [|k ks IH]; intros k1 k2 H1 H2 H; inversion H1; inversion H2; subst; [reflexivity|].
+  cbn in H. destruct (key_part_app_inj _ _ _ _ H) as [Hr Ht]. f_equal.
+  - eapply render_inj_kind; eassumption.
+  - apply IH; assumption.
+Qed.
+
+(* the key columns of r hold values of the kinds ks (integers / strings; a primary key has no NULL) *)
+Definition key_kinds (sch : schema) (ks : list kind) (r : row) : Prop := Forall2 has_kind ks (key sch r).
+
+Theorem row_key_injective : forall sch ks a b,
+  key_kinds sch ks a -> key_kinds sch ks b -> key_str sch a = key_str sch b -> key sch a = key sch b.
+Proof. intros sch ks a b Ha Hb H. exact (key_parts_inj ks _ _ Ha Hb H). Qed.
+
+Theorem insert_plain_exact_typed : forall sch ks rows news,
+  keyless sch = false -> Forall (key_kinds sch ks) news ->
+  impl_exec sch rows (SInsert IPlain news) =
+  match spec_insert sch rows news with
+  | Some l => (OOk (N.of_nat (length news)) 0, sort_rows sch l)
+  | None => (ODupKey, rows)
+  end.
+Proof.
+  intros sch ks rows news Hk Hn. apply insert_plain_exact; [exact Hk|].
+  intros a b Ha Hb. rewrite Forall_forall in Hn. apply (row_key_injective sch ks); [apply Hn; exact Ha|apply Hn; exact Hb].
+Qed.
+
 (* ---------- the faithful model violates the property: witnesses ---------- *)
 Definition sch_ci : schema := {| s_pk := [0%nat]; s_uniq := []; s_coll := [CCi; CBin] |}.
 Definition h_ci : list stmt :=
@@ -534,10 +628,11 @@ Qed.
 Definition sch_ab : schema := {| s_pk := [0%nat; 1%nat]; s_uniq := []; s_coll := [CBin; CBin; CBin] |}.
 Definition news_ab : list row := [[VInt 1; VInt 12; VInt 0]; [VInt 11; VInt 2; VInt 0]].
 
-Lemma false_duplicate_composite :
-  keyless sch_ab = false /\ spec_insert sch_ab [] news_ab = Some news_ab /\
-  impl_exec sch_ab [] (SInsert IPlain news_ab) = (ODupKey, []).
-Proof. repeat split; vm_compute; reflexivity. Qed.
+(* the former false duplicate (row keys "112" / "112") is accepted now: the keys are "1:12:12" and "2:111:2" *)
+Lemma former_false_duplicate_accepted :
+  key_str sch_ab [VInt 1; VInt 12; VInt 0] <> key_str sch_ab [VInt 11; VInt 2; VInt 0] /\
+  impl_exec sch_ab [] (SInsert IPlain news_ab) = (OOk 2 0, news_ab).
+Proof. split; [vm_compute; discriminate|vm_compute; reflexivity]. Qed.
 
 Definition sch_u : schema := {| s_pk := [0%nat]; s_uniq := [([1%nat], [0%N])]; s_coll := [CBin; CBin] |}.
 Definition h_u : list stmt :=
@@ -549,9 +644,6 @@ Lemma unique_freed_value_taken_twice :
   uq_conf (s_uniq sch_u) [[VInt 2; VInt 5]] [VInt 3; VInt 5] = true.
 Proof. split; vm_compute; reflexivity. Qed.
 
-(* non-vacuity of the guarded statements *)
-Lemma inj_on_example : inj_on sch_ab [[VInt 1; VInt 2; VInt 0]; [VInt 3; VInt 4; VInt 0]].
-Proof.
-  intros a b Ha Hb. cbn in Ha, Hb.
-  destruct Ha as [<-|[<-|[]]]; destruct Hb as [<-|[<-|[]]]; vm_compute; intros H; try reflexivity; discriminate.
-Qed.
+(* non-vacuity *)
+Lemma key_kinds_example : Forall (key_kinds sch_ab [KInt; KInt]) news_ab.
+Proof. repeat constructor. Qed.
